@@ -288,6 +288,7 @@ impl Early {
                         dialog.peer_contact = contact;
                     }
                     dialog.route_set = response.headers.get(Name::RECORD_ROUTE).unwrap_or_default();
+                    dialog.route_set.reverse();
 
                     let (evt_sink, usage_events) = mpsc::channel(4);
 
